@@ -570,11 +570,17 @@ def crash_violation(v, info, prefix=""):
     return True
 
 
-def setup_cmds(kinds, ds, dl):
-    """driver commands building the prepared pool of SUVec!Setup(kinds) with small/large dimensions ds/dl"""
+def setup_cmds(kinds, ds, dl, robbed=False):
+    """driver commands building the prepared pool of SUVec!Setup(kinds) with small/large dimensions ds/dl.
+    robbed: the empty vectors of the pool are not default-constructed but vectors whose storage was taken over by an
+    expression statement (t = move(v) + w into an empty target) - the same abstract state, reached through the library's
+    theft path; the helper vectors live in slots 4 and 5 and are destroyed again."""
     cmds = []
     for i, k in enumerate(kinds):
-        if k == "empty": cmds.append("NewEmpty %d" % i)
+        if k == "empty" and robbed:
+            cmds += ["NewSized %d %d 0" % (i, ds), "Write %d 5" % i, "NewSized 4 %d 0" % ds, "Write 4 3", "NewEmpty 5",
+                     "AssignExpr 5 = add %d 4 1 0 1 0 0" % i, "Destroy 5", "Destroy 4"]
+        elif k == "empty": cmds.append("NewEmpty %d" % i)
         elif k == "ownS": cmds.append("NewSized %d %d 0" % (i, ds))
         elif k == "ownL": cmds.append("NewSized %d %d 0" % (i, dl))
         elif k == "extS": cmds.append("NewExt %d %d 1" % (i, ds))
@@ -585,7 +591,7 @@ def setup_cmds(kinds, ds, dl):
     return cmds
 
 
-def shape_scripts(edges, ds, dl, keep=lambda i, e: True, flags_of=lambda i, e: 0):
+def shape_scripts(edges, ds, dl, keep=lambda i, e: True, flags_of=lambda i, e: 0, robbed=False):
     out = []
     for i, e in enumerate(edges):
         if not keep(i, e):
@@ -603,7 +609,7 @@ def shape_scripts(edges, ds, dl, keep=lambda i, e: True, flags_of=lambda i, e: 0
                 if a["op"] == "generator": a["c"] = a["d"] * a["d"] + (a["c"] - dd * dd)
                 else: a["c"] = a["d"] + (a["c"] - dd)
         a["flags"] = flags_of(i, e)
-        out.append(setup_cmds(e["kinds"], ds, dl) + [act_to_cmd(a)])
+        out.append(setup_cmds(e["kinds"], ds, dl, robbed) + [act_to_cmd(a)])
     return out
 
 
